@@ -526,7 +526,14 @@ pub fn run(args: &Args, c13: bool) -> Report {
         match catching(|| run_seq(window, cap, &ops, 0, c13)) {
             Ok(None) => {}
             Ok(Some((i, sig, d))) => {
-                found.lock().unwrap().push((sig, format!("op #{i}: {d}"), json!({"window": window, "capacity": cap, "ops": opj(&ops[..(i + 1).min(ops.len())])})));
+                // shrink the history to a short witness with the same signature
+                let prefix = ops[..(i + 1).min(ops.len())].to_vec();
+                let small = shrink_seq(prefix, |t| matches!(catching(|| run_seq(window, cap, t, 0, c13)), Ok(Some((_, s2, _))) if s2 == sig));
+                let d2 = match catching(|| run_seq(window, cap, &small, 0, c13)) {
+                    Ok(Some((j, _, d2))) => format!("op #{j}: {d2}"),
+                    _ => format!("op #{i}: {d}"),
+                };
+                found.lock().unwrap().push((sig, d2, json!({"window": window, "capacity": cap, "ops": opj(&small), "shrunk_from_len": i + 1})));
             }
             Err(pn) => {
                 let pp = if c13 { "C13" } else { "C11" };
